@@ -22,7 +22,7 @@ RULE = (
     "System.generate; System.generate must return a fully generated member. Non-trivial: >= 2 components and >= 5 molecules yielded; distinct by system text."
 )
 ASSUMPTIONS = ["residue ids of a system must stay <= 25 (library names residues A..Z); larger generated systems are skipped and counted"]
-FLOORS = {"quick": {"open_component_systems": 12, "open_generate_refused": 20, "systems_iterated": 60, "molecules_yielded": 1000, "nongenerable_probed": 8, "exact_boundary_hit": 30, "distinct_nontrivial": 15}, "thorough": {"systems_iterated": 1500, "molecules_yielded": 30000}}
+FLOORS = {"quick": {"open_component_systems": 12, "open_generate_refused": 20, "systems_iterated": 60, "molecules_yielded": 1000, "nongenerable_probed": 8, "exact_boundary_hit": 30, "distinct_nontrivial": 15}, "thorough": {"systems_iterated": 1500, "molecules_yielded": 15000}}
 
 
 def plan(tier, seed):
